@@ -4,6 +4,7 @@ go 1.25.0
 
 require (
 	golang.org/x/image v0.44.0
+	seehuhn.de/go/geom v0.7.5-0.20260817173237-f200797cc36c
 	seehuhn.de/go/membudget v0.7.4
 	seehuhn.de/go/pdf v0.0.0
 	seehuhn.de/go/postscript v0.7.5-0.20260806200436-89e22957abb9
@@ -14,7 +15,6 @@ require (
 	github.com/xdg-go/stringprep v1.0.4 // indirect
 	golang.org/x/text v0.40.0 // indirect
 	seehuhn.de/go/dag v1.0.0 // indirect
-	seehuhn.de/go/geom v0.7.5-0.20260817173237-f200797cc36c // indirect
 	seehuhn.de/go/icc v0.7.5-0.20260816204135-054437223970 // indirect
 	seehuhn.de/go/xmp v0.7.4 // indirect
 )
